@@ -208,6 +208,128 @@ Proof.
       * rewrite has_key_cons, (F f' Hin). apply orb_true_r.
 Qed.
 
+(* ---------------- lists: prefixItems over concatenations, splitting at an Unpack ---------------- *)
+Lemma forallb2_nil_r {A B} (f: A -> B -> bool) l : forallb2 f l [] = true.
+Proof. destruct l; reflexivity. Qed.
+
+Lemma forallb2_app {A B} (f: A -> B -> bool) : forall l1 l2 x1 x2, List.length l1 = List.length x1 ->
+  forallb2 f (l1 ++ l2)%list (x1 ++ x2)%list = forallb2 f l1 x1 && forallb2 f l2 x2.
+Proof.
+  induction l1 as [|a r IH]; intros l2 x1 x2 H; destruct x1 as [|x r']; try discriminate; [reflexivity|].
+  cbn. cbn in H. rewrite IH by lia. rewrite andb_assoc. reflexivity.
+Qed.
+
+Lemma forallb2_short {A B} (f: A -> B -> bool) p x y : List.length p = List.length x ->
+  forallb2 f p (x ++ y)%list = forallb2 f p x.
+Proof.
+  intros H. rewrite <- (app_nil_r p) at 1. rewrite forallb2_app by assumption. cbn. apply andb_true_r.
+Qed.
+
+Lemma skipn_add {A} : forall b (l: list A) a, skipn a (skipn b l) = skipn (b + a) l.
+Proof.
+  induction b as [|b IH]; intros l a; [reflexivity|].
+  destruct l as [|x r]; [cbn; destruct a; reflexivity|]. cbn. apply IH.
+Qed.
+
+Lemma split3 {A} (l: list A) u nm : u + nm <= List.length l ->
+  l = (firstn u l ++ firstn nm (skipn u l) ++ skipn (u + nm) l)%list.
+Proof.
+  intros H. rewrite <- (firstn_skipn u l) at 1. f_equal.
+  rewrite <- (firstn_skipn nm (skipn u l)) at 1. f_equal. apply skipn_add.
+Qed.
+
+Lemma find_unpack_split : forall args u, find_unpack args = Some u ->
+  exists it, nth_error args u = Some (true, it) /\ no_unpack (firstn u args) = true /\
+             args = (firstn u args ++ (true, it) :: skipn (Sn u) args)%list.
+Proof.
+  induction args as [|[b t] r IH]; intros u H; [discriminate|]. cbn in H. destruct b.
+  - inversion H; subst. exists t. repeat split; reflexivity.
+  - destruct (find_unpack r) as [i|] eqn:Er; [|discriminate]. inversion H; subst.
+    destruct (IH i eq_refl) as (it & Hn & Hnu & Heq). exists it. cbn [nth_error firstn skipn no_unpack forallb fst negb andb].
+    repeat split; [assumption| exact Hnu |]. cbn [app]. f_equal. exact Heq.
+Qed.
+
+Lemma omap_app {A B} (f: A -> option B) : forall l1 l2 r, omap f (l1 ++ l2)%list = Some r ->
+  exists r1 r2, omap f l1 = Some r1 /\ omap f l2 = Some r2 /\ r = (r1 ++ r2)%list.
+Proof.
+  induction l1 as [|a l1 IH]; intros l2 r H.
+  - exists [], r. repeat split; assumption.
+  - cbn in H. destruct (f a) as [b|] eqn:Ea; [|discriminate]. destruct (omap f (l1 ++ l2)) as [r'|] eqn:Er; [|discriminate].
+    inversion H; subst. destruct (IH l2 r' Er) as (r1 & r2 & H1 & H2 & ->).
+    exists (b :: r1), r2. cbn. rewrite Ea, H1. repeat split; auto.
+Qed.
+
+(* ---------------- K6 closed form for one Unpack among plain arguments ---------------- *)
+Lemma last_unpack_plain_app {A} (sb: list A) : forall i r acc,
+  last_unpack i (map (@Plain A) sb ++ r)%list acc = last_unpack (i + zlen sb)%Z r acc.
+Proof.
+  induction sb as [|s sb IH]; intros i r acc.
+  - cbn. unfold zlen. cbn. rewrite Z.add_0_r. reflexivity.
+  - cbn [map app last_unpack]. rewrite IH. f_equal. unfold zlen. cbn [List.length]. lia.
+Qed.
+
+Lemma unpacks_plain {A} (sa: list A) : unpacks (map (@Plain A) sa) = [].
+Proof. induction sa; cbn; auto. Qed.
+Lemma lead_plain_app {A} (sb: list A) u r : lead (map (@Plain A) sb ++ Unpack u :: r)%list = sb.
+Proof. induction sb as [|x sb IH]; cbn; [reflexivity|f_equal; exact IH]. Qed.
+Lemma nplain_plain {A} (sa: list A) : nplain (map (@Plain A) sa) = zlen sa.
+Proof. induction sa as [|x r IH]; [reflexivity|]. cbn [map nplain]. rewrite IH. unfold zlen. cbn [List.length]. lia. Qed.
+Lemma nplain_app {A} (l1 l2: list (targ A)) : nplain (l1 ++ l2)%list = (nplain l1 + nplain l2)%Z.
+Proof. induction l1 as [|[s|u] r IH]; cbn [app nplain]; lia. Qed.
+
+Lemma spec_one_unpack {A} (sb sa: list A) (u0: uschema A) :
+  tuple_spec (map (@Plain A) sb ++ Unpack u0 :: map (@Plain A) sa)%list =
+  mkT (l_or_none (sb ++ uprefix u0)%list)
+      (if (zlen sa =? 0)%Z then u_items u0 else None)
+      (z_or_none (zlen sb + zlen sa + umin u0))
+      (z_or_none (match u_max u0 with Some mx => zlen sb + zlen sa + mx | None => 0 end))%Z.
+Proof.
+  unfold tuple_spec. rewrite last_unpack_plain_app. cbn [last_unpack].
+  rewrite (last_unpack_none _ _ _ (unpacks_plain sa)). rewrite lead_plain_app.
+  rewrite nplain_app, nplain_plain. cbn [nplain]. rewrite nplain_plain.
+  assert (Hz: ((1 + zlen sb =? zlen (map (@Plain A) sb ++ Unpack u0 :: map (@Plain A) sa)%list) = (zlen sa =? 0))%Z).
+  { unfold zlen. rewrite app_length. cbn [List.length]. rewrite !map_length.
+    destruct (Z.eqb_spec (Z.of_nat (List.length sa)) 0); [apply Z.eqb_eq; lia | apply Z.eqb_neq; lia]. }
+  rewrite Hz. reflexivity.
+Qed.
+
+Lemma forallb2_le {A B} (f: A -> B -> bool) : forall p x y, List.length p <= List.length x ->
+  forallb2 f p (x ++ y)%list = forallb2 f p x.
+Proof.
+  induction p as [|a p IH]; intros x y H; [reflexivity|].
+  destruct x as [|b x]; [cbn in H; lia|]. cbn. rewrite IH by (cbn in H; lia). reflexivity.
+Qed.
+
+Lemma tuple_kws_all (f: kw -> bool) (r: tschema schema) :
+  f (KType TyArray) = true ->
+  (forall l, t_prefix r = Some l -> f (KPrefix l) = true) ->
+  (forall s, t_items r = Some s -> f (KItems s) = true) ->
+  (forall z, t_min r = Some z -> f (KMin z) = true) ->
+  (forall z, t_max r = Some z -> f (KMax z) = true) ->
+  forallb f (tuple_kws r) = true.
+Proof.
+  destruct r as [[p|] [i|] [mn|] [mx|]]; unfold tuple_kws; cbn; intros H0 H1 H2 H3 H4;
+    rewrite ?H0, ?(H1 _ eq_refl), ?(H2 _ eq_refl), ?(H3 _ eq_refl), ?(H4 _ eq_refl); reflexivity.
+Qed.
+
+Lemma tuple_kws_prefix_len (r: tschema schema) :
+  get_prefix_len (tuple_kws r) = match t_prefix r with Some l => List.length l | None => 0 end.
+Proof. destruct r as [[p|] [i|] [mn|] [mx|]]; reflexivity. Qed.
+
+Lemma l_or_none_some {A} (l p: list A) : l_or_none l = Some p -> p = l /\ l <> [].
+Proof. destruct l; cbn; intros H; inversion H; split; [reflexivity|discriminate]. Qed.
+
+Lemma uschema_tuple_kws (r: tschema schema) :
+  uschema_of (S (tuple_kws r)) = mkU (t_prefix r) (t_items r) (t_min r) (t_max r).
+Proof. destruct r as [[p|] [i|] [mn|] [mx|]]; reflexivity. Qed.
+
+Lemma tuple_kws_prefix_len' (r: tschema schema) :
+  get_prefix_len (tuple_kws r) = List.length (ol_or_nil (t_prefix r)).
+Proof. destruct r as [[[|x p]|] [i|] [mn|] [mx|]]; reflexivity. Qed.
+
+Lemma skipn_app_exact {A} (l1 l2: list A) n : skipn (List.length l1 + n) (l1 ++ l2)%list = skipn n l2.
+Proof. induction l1 as [|x r IH]; [reflexivity|]. cbn. exact IH. Qed.
+
 Section Sound.
   Variable pm : string -> string -> bool.
   (* the regular-expression oracle accepts the rendering of every whole-minute offset
@@ -243,6 +365,159 @@ Section Sound.
       cbn in Ha. apply andb_true_iff in Ha. destruct Ha as [Ha1 Ha2].
       cbn in Hok. apply andb_true_iff in Hok. destruct Hok as [Hok1 Hok2].
       cbn [forallb2]. rewrite (IH _ _ _ _ _ Ha1 m m' s0 Hok1 Es k Hk). cbn. eapply IHr; eauto.
+  Qed.
+
+  (* schema of a plain fixed tuple (no Unpack) *)
+  Lemma plain_tuple_schema cur m (ia: list (bool * ty)) s : no_unpack ia = true ->
+    schema_f E dl ar cur (Sn m) (TTuple ia) = Some s ->
+    exists ss, omap (fun a: bool * ty => schema_f E dl ar cur m (snd a)) ia = Some ss /\
+      s = S (match ss with
+             | [] => [KType TyArray; KMax 0%Z]
+             | _ => [KType TyArray; KPrefix ss; KMin (zlen ss); KMax (zlen ss)] end).
+  Proof.
+    intros Hnu Hs. cbn [schema_f] in Hs. destruct ia as [|a0 r].
+    - inv Hs. exists []. split; reflexivity.
+    - cbn beta iota in Hs.
+      match type of Hs with context [omap ?G (a0 :: r)] => destruct (omap G (a0 :: r)) as [targs|] eqn:Eo; [|discriminate] end.
+      inv Hs. destruct (tuple_plain _ _ Hnu _ Eo) as (ss & -> & Ess). exists ss. split; [assumption|].
+      rewrite on_tuple_k_spec, spec_plain. pose proof (omap_length _ _ _ Ess) as Hlen.
+      destruct ss as [|s0 ss']; [cbn in Hlen; discriminate|].
+      assert (Hz: z_or_none (zlen (s0 :: ss')) = Some (zlen (s0 :: ss'))).
+      { unfold z_or_none. destruct (Z.eqb_spec (zlen (s0 :: ss')) 0) as [Hz|Hz]; [|reflexivity].
+        unfold zlen in Hz. cbn [List.length] in Hz. lia. }
+      unfold tuple_kws. cbn [t_prefix t_items t_min t_max l_or_none]. rewrite Hz. reflexivity.
+  Qed.
+
+  (* ---------- fixed / variadic tuple types, any nesting of Unpack: the facts a schema in tuple form states
+     about an array, established for the serialization of a conforming value ---------- *)
+  Definition tfacts (k: nat) (R: tschema schema) (js: list json) : Prop :=
+    let P := ol_or_nil (t_prefix R) in
+    List.length P <= List.length js /\
+    forallb2 (fun s' x => jvalid pm defs k s' x) P js = true /\
+    (forall si, t_items R = Some si -> forallb (jvalid pm defs k si) (skipn (List.length P) js) = true) /\
+    (oz_or (t_min R) 0 <= Z.of_nat (List.length js))%Z /\
+    (forall mx, t_max R = Some mx -> (Z.of_nat (List.length js) <= mx)%Z) /\
+    (0 <= oz_or (t_min R) 0)%Z.
+
+  Lemma tfacts_jvalid k R js : tfacts k R js -> jvalid pm defs (Sn k) (S (tuple_kws R)) (JArr js) = true.
+  Proof.
+    intros (F1 & F2 & F3 & F4 & F5 & F6). rewrite jvalid_S. cbn [kws_of]. apply tuple_kws_all.
+    - reflexivity.
+    - intros p Hp. rewrite Hp in F2. cbn [kw_ok]. destruct p; [reflexivity|exact F2].
+    - intros si Hsi. cbn [kw_ok]. rewrite tuple_kws_prefix_len'. exact (F3 si Hsi).
+    - intros z Hz. rewrite Hz in F4. cbn [kw_ok]. apply Z.leb_le. unfold oz_or in F4.
+      destruct (Z.eqb_spec z 0); lia.
+    - intros z Hz. cbn [kw_ok]. apply Z.leb_le. exact (F5 z Hz).
+  Qed.
+
+  Lemma tuple_tfacts : forall n, (forall n', n' < n -> sound_at n') ->
+    forall cur base m m' k it lm jm s_in, 2 * n <= k + 1 ->
+    unpack_inner_ok it = true ->
+    enc_ok n E cur base it (VList lm) (JArr jm) = true ->
+    ty_ok m' E cur base it = true ->
+    schema_f E dl ar cur m it = Some s_in ->
+    exists R, s_in = S (tuple_kws R) /\ tfacts k R jm.
+  Proof.
+    induction n as [n IHn] using lt_wf_ind. intros IHs cur base m m' k it lm jm s_in Hk Hin He Hok Hs.
+    destruct n as [|n0]; [discriminate|]. destruct m as [|m0]; [discriminate|]. destruct m' as [|m1]; [discriminate|].
+    assert (IH0: sound_at n0) by (apply IHs; lia).
+    assert (Hk0: 2 * n0 + 1 <= k) by lia.
+    destruct it; try discriminate.
+    - (* Tuple[T, ...] *)
+      destruct keep; [|discriminate]. cbn [enc_ok] in He. cbn [schema_f] in Hs. cbn [ty_ok] in Hok.
+      destruct (schema_f E dl ar cur m0 it) as [st|] eqn:Est; [|discriminate]. inv Hs.
+      apply andb_true_iff in Hok. destruct Hok as [_ Hok].
+      assert (Hall: forallb (jvalid pm defs k st) jm = true).
+      { eapply all2_forallb; [|exact He]. intros x y _ Hxy. eapply (IH0 _ _ _ _ _ Hxy m0 m1 st); eauto. }
+      exists (mkT None (if is_empty_schema st then None else Some st) None None). split.
+      + unfold opt_kw. destruct (is_empty_schema st); reflexivity.
+      + unfold tfacts. cbn. refine (conj _ (conj _ (conj _ (conj _ (conj _ _))))); try lia; try reflexivity.
+        * intros si Hsi. destruct (is_empty_schema st); [discriminate|]. inv Hsi. exact Hall.
+        * intros mx Hmx. discriminate.
+    - (* fixed tuple *)
+      cbn [ty_ok] in Hok. apply andb_true_iff in Hok. destruct Hok as [Hoks Hshape].
+      destruct (no_unpack args) eqn:Hnu; [clear Hshape|].
+      + (* no Unpack *)
+        destruct (plain_tuple_schema cur m0 args s_in Hnu Hs) as (ss & Ess & ->).
+        cbn [enc_ok] in He. rewrite (no_unpack_find _ Hnu) in He.
+        apply andb_true_iff in He. destruct He as [He Hl2]. apply andb_true_iff in He. destruct He as [He Hl1].
+        apply Nat.eqb_eq in Hl1. apply Nat.eqb_eq in Hl2.
+        pose proof (prefix_ok (@snd bool ty) n0 IH0 cur base m0 m1 k Hk0 _ _ _ _ He Ess Hoks) as Hp.
+        pose proof (omap_length _ _ _ Ess) as Hlen.
+        assert (Hjl: List.length jm = List.length ss) by lia.
+        destruct ss as [|s0 ss'].
+        * exists (mkT None None None (Some 0%Z)). split; [reflexivity|]. destruct jm; [|cbn in Hjl; discriminate].
+          unfold tfacts. cbn. refine (conj _ (conj _ (conj _ (conj _ (conj _ _))))); try lia; try reflexivity.
+          intros mx Hmx. inv Hmx. lia.
+        * exists (mkT (Some (s0 :: ss')) None (Some (zlen (s0 :: ss'))) (Some (zlen (s0 :: ss')))). split; [reflexivity|].
+          assert (Hnz: (zlen (s0 :: ss') =? 0)%Z = false) by (apply Z.eqb_neq; unfold zlen; cbn [List.length]; lia).
+          unfold tfacts. cbn [t_prefix t_items t_min t_max ol_or_nil oz_or]. rewrite Hnz. unfold zlen in *.
+          refine (conj _ (conj _ (conj _ (conj _ (conj _ _))))); try lia; try assumption.
+          -- intros si Hsi. discriminate.
+          -- intros mx Hmx. injection Hmx as Hmx. rewrite <- Hmx, Hjl. apply Z.le_refl.
+      + (* one Unpack segment *)
+        cbn [orb] in Hshape. destruct (find_unpack args) as [u|] eqn:Efu; [|discriminate].
+        apply andb_true_iff in Hshape. destruct Hshape as [Hna Hin'].
+        destruct (find_unpack_split _ _ Efu) as (it' & Hnth & Hnb & Hargs).
+        cbn [enc_ok] in He. rewrite Efu in He. rewrite Hnth in Hin', He.
+        apply andb_true_iff in He. destruct He as [He Hrest].
+        apply andb_true_iff in He. destruct He as [He Hle]. apply andb_true_iff in He. destruct He as [_ Hll].
+        apply andb_true_iff in Hrest. destruct Hrest as [Hrest Hafter]. apply andb_true_iff in Hrest. destruct Hrest as [Hbefore Hinner].
+        apply Nat.eqb_eq in Hll. apply Nat.leb_le in Hle.
+        set (na := List.length (skipn (Sn u) args)) in *. set (nm := List.length lm - u - na) in *.
+        assert (Hu: u < List.length args) by (apply nth_error_Some; congruence).
+        set (before := firstn u args) in *. set (after := skipn (Sn u) args) in *.
+        set (jb := firstn u jm) in *. set (jm' := firstn nm (skipn u jm)) in *. set (ja := skipn (u + nm) jm) in *.
+        assert (Hjs: jm = (jb ++ jm' ++ ja)%list) by (apply split3; lia).
+        assert (Llb: List.length (firstn u lm) = List.length jb) by (unfold jb; rewrite !firstn_length_le by lia; reflexivity).
+        assert (Lbb: List.length jb = List.length before) by (unfold jb, before; rewrite !firstn_length_le by lia; reflexivity).
+        assert (Laa: List.length ja = List.length after) by (unfold ja; rewrite skipn_length; fold na; lia).
+        (* schema side *)
+        rewrite Hargs in Hs, Hoks. fold before after in Hs, Hoks.
+        cbn [schema_f] in Hs.
+        destruct (before ++ (true, it') :: after)%list as [|a0 r0] eqn:Eargs; [destruct before; discriminate|].
+        rewrite <- Eargs in *. clear a0 r0 Eargs.
+        match type of Hs with context [omap ?G ?L] => destruct (omap G L) as [targs|] eqn:Eo; [|discriminate] end.
+        injection Hs as Hs. subst s_in.
+        destruct (omap_app _ _ _ _ Eo) as (tb & r2 & Eb & E2 & Etargs). subst targs.
+        cbn [omap fst snd] in E2.
+        destruct (schema_f E dl ar cur m0 it') as [s_in'|] eqn:Ein; [|discriminate].
+        match type of E2 with context [omap ?G after] => destruct (omap G after) as [ta|] eqn:Ea; [|discriminate] end.
+        injection E2 as E2. subst r2.
+        destruct (tuple_plain _ _ Hnb _ Eb) as (sb & Etb & Esb). subst tb.
+        destruct (tuple_plain _ _ Hna _ Ea) as (sa & Eta & Esa). subst ta.
+        rewrite forallb_app in Hoks. apply andb_true_iff in Hoks. destruct Hoks as [Hokb Hoks].
+        cbn [forallb snd] in Hoks. apply andb_true_iff in Hoks. destruct Hoks as [Hoki Hoka].
+        pose proof (prefix_ok (@snd bool ty) n0 IH0 cur base m0 m1 k Hk0 _ _ _ _ Hbefore Esb Hokb) as Hpb.
+        (* the unpacked segment, recursively *)
+        destruct (IHn n0 ltac:(lia) ltac:(intros; apply IHs; lia) cur base m0 m1 k it' _ _ s_in' ltac:(lia) Hin' Hinner Hoki Ein)
+          as (R1 & Esin & (G1 & G2 & G3 & G4 & G5 & G6)). subst s_in'.
+        rewrite uschema_tuple_kws in *.
+        set (u0 := mkU (t_prefix R1) (t_items R1) (t_min R1) (t_max R1)) in *.
+        pose proof (omap_length _ _ _ Esb) as Lsb. pose proof (omap_length _ _ _ Esa) as Lsa.
+        assert (Lb: List.length sb = List.length jb) by lia.
+        assert (La: List.length sa = List.length ja) by lia.
+        rewrite on_tuple_k_spec, spec_one_unpack.
+        eexists. split; [reflexivity|].
+        rewrite Hjs.
+        assert (Hlen: Z.of_nat (List.length (jb ++ jm' ++ ja)%list) = (zlen sb + zlen sa + Z.of_nat (List.length jm'))%Z)
+          by (rewrite !app_length; unfold zlen; lia).
+        unfold tfacts. cbn [t_prefix t_items t_min t_max]. rewrite ol_or_nil_l_or_none, oz_or_z_or_none.
+        change (uprefix u0) with (ol_or_nil (t_prefix R1)). change (umin u0) with (oz_or (t_min R1) 0%Z).
+        change (u_items u0) with (t_items R1). change (u_max u0) with (t_max R1).
+        set (P1 := ol_or_nil (t_prefix R1)) in *.
+        refine (conj _ (conj _ (conj _ (conj _ (conj _ _))))).
+        * rewrite !app_length. lia.
+        * rewrite forallb2_app by assumption. rewrite Hpb. cbn [andb]. rewrite forallb2_le by assumption. exact G2.
+        * intros si Hsi. destruct (zlen sa =? 0)%Z eqn:Ez; [|discriminate].
+          assert (sa = []) by (apply Z.eqb_eq in Ez; unfold zlen in Ez; destruct sa; [reflexivity|cbn in Ez; lia]).
+          subst sa. assert (Hja: ja = []) by (destruct ja; [reflexivity|cbn in La; discriminate]).
+          rewrite Hja, !app_nil_r, app_length, Lb.
+          rewrite skipn_app_exact. exact (G3 si Hsi).
+        * rewrite Hlen. lia.
+        * intros mx Hmx. destruct (t_max R1) as [mx1|] eqn:Emx; [|cbn in Hmx; discriminate].
+          apply z_or_none_some in Hmx. rewrite Hlen. specialize (G5 mx1 eq_refl). lia.
+        * unfold zlen. lia.
   Qed.
 
   Lemma assoc_omap_find (F: ty -> option schema) key : forall fields ps f,
@@ -299,9 +574,10 @@ Section Sound.
       destruct (PA f Hf) as (s' & _ & Ha). eapply assoc_has_key; eassumption.
   Qed.
 
-  Lemma sound_step n : sound_at n -> sound_at (Sn n).
+  Lemma sound_step n : (forall n', n' <= n -> sound_at n') -> sound_at (Sn n).
   Proof.
-    intros IH cur base t v j He m m' s Hok Hs k Hk.
+    intros IHs cur base t v j He m m' s Hok Hs k Hk.
+    pose proof (IHs n (le_n n)) as IH.
     destruct m as [|m]; [discriminate|]. destruct m' as [|m']; [discriminate|].
     destruct k as [|k]; [lia|].
     assert (Hk1: 2 * n + 1 <= k) by lia.
@@ -354,28 +630,14 @@ Section Sound.
       { eapply all2_forallb; [|exact He]. intros x y _ Hxy. eapply IH; eauto. }
       unfold opt_kw. destruct (is_empty_schema s0); cbn [app kws_of forallb kw_ok has_type get_prefix_len skipn negb orb];
         rewrite ?Hall, ?Hnd; reflexivity.
-    - (* TTuple: fixed tuples without Unpack (the arithmetic with Unpack is covered by the K6 theorems) *)
-      apply andb_true_iff in Hok. destruct Hok as [Hnu Hoks].
+    - (* TTuple: fixed tuples, with Unpack segments at any nesting depth *)
       destruct v; try discriminate. destruct j; try discriminate.
-      rewrite (no_unpack_find _ Hnu) in He.
-      apply andb_true_iff in He. destruct He as [He Hl2]. apply andb_true_iff in He. destruct He as [He Hl1].
-      apply Nat.eqb_eq in Hl1. apply Nat.eqb_eq in Hl2.
-      destruct args as [|a0 r].
-      + inv Hs. cbn in Hl2. destruct l; [|discriminate]. destruct l0; [|discriminate]. reflexivity.
-      + cbn beta iota in Hs.
-        match type of Hs with context [omap ?G (a0 :: r)] => destruct (omap G (a0 :: r)) as [targs|] eqn:Eo; [|discriminate] end.
-        inv Hs. destruct (tuple_plain _ _ Hnu _ Eo) as (ss & -> & Ess).
-        rewrite on_tuple_k_spec, spec_plain.
-        pose proof (prefix_ok (@snd bool ty) n IH cur base m m' k Hk1 _ _ _ _ He Ess Hoks) as Hp.
-        pose proof (omap_length _ _ _ Ess) as Hlen.
-        destruct ss as [|s0 ss']; [cbn in Hlen; discriminate|].
-        assert (Hz: z_or_none (zlen (s0 :: ss')) = Some (zlen (s0 :: ss'))).
-        { unfold z_or_none. destruct (Z.eqb_spec (zlen (s0 :: ss')) 0) as [Hz|Hz]; [|reflexivity].
-          unfold zlen in Hz. cbn [List.length] in Hz. lia. }
-        unfold tuple_kws. cbn [t_prefix t_items t_min t_max l_or_none]. rewrite Hz.
-        cbn [app kws_of forallb kw_ok has_type]. rewrite Hp.
-        assert (Hll: Z.of_nat (List.length l0) = zlen (s0 :: ss')) by (unfold zlen; rewrite Hlen, <- Hl2, Hl1; reflexivity).
-        rewrite Hll, Z.leb_refl. reflexivity.
+      change (enc_ok (Sn n) E cur base (TTuple args) (VList l) (JArr l0) = true) in He.
+      change (schema_f E dl ar cur (Sn m) (TTuple args) = Some s) in Hs.
+      change (ty_ok (Sn m') E cur base (TTuple args) = true) in Hok.
+      destruct (tuple_tfacts (Sn n) ltac:(intros; apply IHs; lia) cur base (Sn m) (Sn m') k (TTuple args) l l0 s
+                  ltac:(lia) eq_refl He Hok Hs) as (R & -> & HF).
+      rewrite <- jvalid_S. apply tfacts_jvalid. exact HF.
     - (* TDict *)
       destruct (schema_f E dl ar cur m t1) as [ks|] eqn:Ek; [|discriminate].
       destruct (schema_f E dl ar cur m t2) as [vs|] eqn:Ev; [|discriminate]. inv Hs.
@@ -501,10 +763,14 @@ Section Sound.
           rewrite Hll, Z.leb_refl. reflexivity.
   Qed.
 
-  Theorem sound_all : forall n, sound_at n.
+  Lemma sound_upto : forall n n', n' <= n -> sound_at n'.
   Proof.
-    induction n as [|n IHn]; [|apply sound_step; assumption].
-    intros cur base t v j He. discriminate.
+    induction n as [|n IHn]; intros n' Hle.
+    - assert (n' = 0) by lia. subst. intros cur base t v j He. discriminate.
+    - destruct (Nat.eq_dec n' (Sn n)) as [->|Hne]; [apply sound_step; exact IHn | apply IHn; lia].
   Qed.
+
+  Theorem sound_all : forall n, sound_at n.
+  Proof. intros n. exact (sound_upto n n (le_n n)). Qed.
 End Sound.
 
